@@ -658,6 +658,90 @@ fn builder_connection_case(imp: Impl, compressed: bool, with_local: bool, dgrams
     }
 }
 
+/// "Any number" of datagrams on one connection: 70 000 (a count kept in 16 bits wraps in there), in batches of 16 queued
+/// on the socket before the connection reads them, cycling through single-packet, multi-packet and maximum-size datagrams.
+fn many_datagrams_checks(acc: &mut crate::report::Acc) {
+    for imp in [Impl::Blocking, Impl::Tokio] {
+        for compressed in [true, false] {
+            acc.eval();
+            let label = format!("{} {} 70 000 datagrams on one connection", if imp == Impl::Blocking { "blocking" } else { "tokio" }, if compressed { "compressed" } else { "uncompressed" });
+            let replay = json!({"site": "many-datagrams", "case": label});
+            let sig = |what: &str| format!("C08|{}|many-datagrams|{what}", if imp == Impl::Blocking { "Blocking" } else { "Tokio" });
+            let (tx, rx) = std::sync::mpsc::channel();
+            let _ = std::thread::spawn(move || { let _ = tx.send(guard(|| many_datagrams_case(imp, compressed))); });
+            match rx.recv_timeout(Duration::from_secs(60)) {
+                Err(_) => acc.violate(0, sig("packet-not-delivered"), format!("{label}: the session did not finish within 60 s"), replay),
+                Ok(Err(p)) => acc.violate(0, sig("panic"), format!("{label}: {p}"), replay),
+                Ok(Ok(Err(e))) if e.starts_with("harness") => { eprintln!("MACHINERY: {label}: {e}"); std::process::exit(4); },
+                Ok(Ok(Err(e))) => acc.violate(0, sig("packet-not-delivered-or-altered"), format!("{label}: {e}"), replay),
+                Ok(Ok(Ok(n))) => { let _ = n; acc.class("many-datagrams-delivered"); acc.nontrivial(); },
+            }
+        }
+    }
+}
+
+fn many_datagrams_case(imp: Impl, compressed: bool) -> Result<u64, String> {
+    let comps: Vec<Vec<usize>> = if compressed { vec![vec![4], vec![8, 4], vec![252], vec![4, 4, 4, 4], vec![1016], vec![12, 508]] } else { vec![vec![4], vec![8, 4], vec![252], vec![4, 4, 4, 4], vec![100, 152], vec![12, 240]] };
+    let total = 70_000usize;
+    let batch = 16usize;
+    let codec = Codec::new(mode_of(compressed));
+    // expected renderings per composition (salt fixed per composition: the check is on count and order)
+    let _ = &codec;
+    let prepared: Vec<(Vec<u8>, Vec<String>)> = comps.iter().enumerate().map(|(ci, c)| { let (d, f) = datagram(compressed, &vec![c.clone()], ci); (d[0].clone(), expected(compressed, &f)) }).collect();
+    let check = |k: usize, j: usize, got: &insim::Packet| -> Result<(), String> {
+        if format!("Ok({got:?})") != prepared[k % comps.len()].1[j] { return Err(format!("packet {j} of datagram #{k} is not the packet sent")); }
+        Ok(())
+    };
+    match imp {
+        Impl::Blocking => {
+            let peer = std::net::UdpSocket::bind("127.0.0.1:0").map_err(|e| format!("harness: {e}"))?;
+            let sock = std::net::UdpSocket::bind("127.0.0.1:0").map_err(|e| format!("harness: {e}"))?;
+            sock.connect(peer.local_addr().unwrap()).unwrap();
+            peer.connect(sock.local_addr().unwrap()).unwrap();
+            sock.set_read_timeout(Some(Duration::from_secs(2))).unwrap();
+            let mut framed = blocking_impl::Framed::new(Box::new(blocking_impl::UdpStream::from(sock)), Codec::new(mode_of(compressed)));
+            let mut k = 0usize;
+            while k < total {
+                let hi = (k + batch).min(total);
+                for d in k..hi { let _ = peer.send(&prepared[d % comps.len()].0).map_err(|e| format!("harness: send {e}"))?; }
+                for d in k..hi {
+                    for j in 0..prepared[d % comps.len()].1.len() {
+                        match framed.read() { Ok(p) => check(d, j, &p)?, Err(e) => return Err(format!("datagram #{d}: read of packet {j} returned {e}")) }
+                    }
+                }
+                k = hi;
+            }
+            Ok(total as u64)
+        },
+        Impl::Tokio => {
+            let rt = tokio::runtime::Builder::new_current_thread().enable_io().enable_time().build().map_err(|e| format!("harness: {e}"))?;
+            rt.block_on(async {
+                let peer = tokio::net::UdpSocket::bind("127.0.0.1:0").await.map_err(|e| format!("harness: {e}"))?;
+                let sock = tokio::net::UdpSocket::bind("127.0.0.1:0").await.map_err(|e| format!("harness: {e}"))?;
+                sock.connect(peer.local_addr().unwrap()).await.unwrap();
+                peer.connect(sock.local_addr().unwrap()).await.unwrap();
+                let mut framed = tokio_impl::Framed::new(Box::new(tokio_impl::UdpStream::from(sock)), Codec::new(mode_of(compressed)));
+                let mut k = 0usize;
+                while k < total {
+                    let hi = (k + batch).min(total);
+                    for d in k..hi { let _ = peer.send(&prepared[d % comps.len()].0).await.map_err(|e| format!("harness: send {e}"))?; }
+                    for d in k..hi {
+                        for j in 0..prepared[d % comps.len()].1.len() {
+                            match tokio::time::timeout(Duration::from_secs(2), framed.read()).await {
+                                Ok(Ok(p)) => check(d, j, &p)?,
+                                Ok(Err(e)) => return Err(format!("datagram #{d}: read of packet {j} returned {e}")),
+                                Err(_) => return Err(format!("datagram #{d}: read of packet {j} did not return within 2 s")),
+                            }
+                        }
+                    }
+                    k = hi;
+                }
+                Ok(total as u64)
+            })
+        },
+    }
+}
+
 fn write_checks(acc: &mut crate::report::Acc) {
     let kinds = spec::load();
     for imp in [Impl::Blocking, Impl::Tokio] {
@@ -788,6 +872,7 @@ pub fn run_check(tier: Tier, replay: Option<String>) -> i32 {
     write_checks(&mut acc);
     adaptor_stream_checks(&mut acc);
     builder_connection_checks(&mut acc, tier);
+    many_datagrams_checks(&mut acc);
     acc.samples.push(json!({"instance": insts[0].label, "history (datagram sizes)": [1020, 1020, 1020, 1020, 1020, 1016, 8]}));
     let mut extra = serde_json::Map::new();
     let _ = extra.insert("states".into(), json!(states));
@@ -801,6 +886,7 @@ pub fn run_check(tier: Tier, replay: Option<String>) -> i32 {
         assumptions: vec![
             "loopback UDP with one datagram (or one burst of 2-3 datagrams, < 3 kB) in flight preserves boundaries and order; every wait carries a 2 s watchdog that turns a hang into a reported violation".into(),
             "writes: every kind's B1 packet, both implementations and modes, must arrive as exactly one datagram equal to Codec::encode(p)".into(),
+            "many-datagrams: 70 000 datagrams (6 compositions in a cycle, batches of 16 queued before the connection reads) on one connection per implementation and mode".into(),
             "builder-connection: every datagram composition (single and burst) again through connections made by the public Builder (blocking / tokio x mode x with / without a local address), one fresh connection each".into(),
         ],
         started,
